@@ -294,9 +294,12 @@ def run_damage_scenario(tool, model, lay, base):
             restore_tree(root, keep)
             before_e = snapshot(root)
             dmg_name = lay.files[b'd2'][lay.s_damaged]
-            for cmd, fpat in (('fix', [b'/' + g.glob_escape(dmg_name)]), ('fix', [b'nothing-has-this-name']), ('fix', []), ('check', [])):
+            for cmd, fpat, opt in (('fix', [b'/' + g.glob_escape(dmg_name)], '-e'), ('fix', [b'nothing-has-this-name'], '-e'), ('fix', [], '-e'),
+                                   ('check', [], '-e'),
+                                   # -b: as -e, and only the blocks marked bad are processed (check.c block_is_enabled)
+                                   ('fix', [b'/' + g.glob_escape(dmg_name)], '-b'), ('fix', [], '-b'), ('check', [b'*'], '-b')):
                 restore_tree(keep, root)
-                run_variant_error(tool, model, root, lay, orig, before_e, cmd, fpat, problems, cnt)
+                run_variant_error(tool, model, root, lay, orig, before_e, cmd, fpat, problems, cnt, opt)
             cnt['damage_error_scenarios'] += 1
         else:
             cnt['damage_error_scrub_did_not_mark'] += 1
@@ -310,9 +313,9 @@ def run_damage_scenario(tool, model, lay, base):
     return problems, cnt
 
 
-def run_variant_error(tool, model, root, lay, orig, before, cmd, fpat, problems, cnt):
+def run_variant_error(tool, model, root, lay, orig, before, cmd, fpat, problems, cnt, opt='-e'):
     """-e [-f pat] after a scrub marked the damaged stripes: with -f the parity is outside the selection"""
-    args = [cmd, '-e']
+    args = [cmd, opt]
     for p in fpat:
         args += ['-f', p]
     log = os.path.join(root, 'run.log')
@@ -327,7 +330,7 @@ def run_variant_error(tool, model, root, lay, orig, before, cmd, fpat, problems,
     kept_mod = {pn: o == '0' for pn, o in zip(PNAMES, mo)}
     kept_ref = {pn: not fpat for pn in PNAMES}
     cnt['damage_runs'] += 1
-    cnt['damage_runs_error_' + cmd] += 1
+    cnt['damage_runs_error_%s_%s' % (opt[1:], cmd)] += 1
     changed = sorted(k for k in set(before) | set(after) if before.get(k) != after.get(k))
 
     def bad(tag, what, no_input=False):
@@ -356,6 +359,7 @@ def run_variant_error(tool, model, root, lay, orig, before, cmd, fpat, problems,
         if after.get(dmg_rel) != orig.get(dmg_rel):
             bad('dmg_selected_not_fixed', '%s: the damaged file %s is selected and has a bad block but was not repaired' % (shown, dmg_rel))
     if not fpat:
-        # -e alone keeps the parity: the bad parity block is repaired too
+        # -e / -b alone keep the parity: the bad parity block and the damaged file are repaired
         if after.get('p/parity') != orig.get('p/parity') or after.get(dmg_rel) != orig.get(dmg_rel):
-            cnt['damage_error_plain_not_all_fixed'] += 1
+            bad('dmg_error_not_fixed', '%s: every block marked bad is selected and the parity is kept, but %s still differ from the synced bytes' %
+                (shown, [k for k in ('p/parity', dmg_rel) if after.get(k) != orig.get(k)]))
